@@ -478,6 +478,28 @@ func stepMutations(step *docgen.N) []stepMut {
 					spell(fmt.Sprintf("plugin[%d]-short->canonical", i), func(s *docgen.N) { s.Get("plugins").Items[i] = docgen.Str(full) })
 				}
 			}
+			// the short name with the plugin suffix already on it is another plugin (the suffix is added once more)
+			withSuffix := func(src string) (string, bool) {
+				name, ref, hasRef := strings.Cut(src, "#")
+				if _, form := c17reference(src); (form != "bare" && form != "org/name") || strings.HasSuffix(name, "-buildkite-plugin") {
+					return "", false
+				}
+				name += "-buildkite-plugin"
+				if hasRef {
+					name += "#" + ref
+				}
+				return name, true
+			}
+			if it.K == docgen.KStr {
+				if other, ok := withSuffix(it.S); ok {
+					spell(fmt.Sprintf("plugin[%d]-name+suffix", i), func(s *docgen.N) { s.Get("plugins").Items[i] = docgen.Str(other) })
+				}
+			}
+			if it.K == docgen.KMap && len(it.Keys) == 1 {
+				if other, ok := withSuffix(it.Keys[0]); ok {
+					spell(fmt.Sprintf("plugin[%d]-name+suffix", i), func(s *docgen.N) { s.Get("plugins").Items[i].Keys[0] = other })
+				}
+			}
 			if it.K == docgen.KMap && len(it.Keys) == 1 {
 				src, cfg := it.Keys[0], it.Vals[0]
 				if short, ok := shortSource(src); ok {
